@@ -286,11 +286,14 @@ def getConflicts (file : Option Str) : Except Err (List Conflict) :=
   | .error e => .error e
   | .ok ss => ss.mapM fromStanza
 
-/-- versioned files of the tree: path, file id, current sha1 -/
+/-- versioned entries of the tree: path, file id, and what `get_file_sha1(path)`
+returns now: the sha1 of a regular file that is present, `none` (Python `None`)
+for a directory, a symlink, the tree root or a versioned file that is missing on
+disk -/
 structure TFile where
   path : Str
   fileId : Str
-  sha : Str
+  sha : Option Str
   deriving DecidableEq, Repr
 
 def path2id (tree : List TFile) (p : Str) : Option Str := (tree.find? fun f => f.path == p).map (·.fileId)
@@ -327,7 +330,7 @@ def mmLoop (tree : List TFile) : List Stanza → List (Str × Str) → Option (L
     | some i, some h =>
       match id2file tree i with
       | none => mmLoop tree rest acc
-      | some f => if h = f.sha then mmLoop tree rest (dset acc f.path h) else mmLoop tree rest acc
+      | some f => if some h = f.sha then mmLoop tree rest (dset acc f.path h) else mmLoop tree rest acc
     | _, _ => none
 
 def getMergeModified (tree : List TFile) (file : Option Str) : Except Err (List (Str × Str)) :=
@@ -391,8 +394,32 @@ def selectConflicts (tree : List (Str × Str)) (paths : List Str) (recurse : Boo
   let ids := paths.filterMap fun p => (tree.find? fun e => e.1 == p).map (·.2)
   selectLoop paths ids recurse cs ([], [])
 
+/-- `resolve(tree, paths, action=…)` on the conflicts file for an arbitrary
+action: `handles c = false` means `c.do(action, tree)` raises
+NotImplementedError (no `action_<name>` method, or the base-class stub), and
+the conflict is appended to the kept ones (`new_conflicts.append(conflict)`);
+otherwise the conflict is processed and dropped.  `paths = none`: everything is
+processed. -/
+def resolveWith (handles : Conflict → Bool) (tree : List (Str × Str)) (paths : Option (List Str))
+    (recurse : Bool) (file : Option Str) : Except Err (Option Str) :=
+  match getConflicts file with
+  | .error e => .error e
+  | .ok cs =>
+    let (new, toProcess) := match paths with
+      | none => ([], cs)
+      | some ps => selectConflicts tree ps recurse cs
+    .ok (setConflicts (new ++ toProcess.filter fun c => !handles c))
+
+/-- `Conflict.do("auto")`: only `TextConflict` overrides `action_auto` (and that
+one looks at the file: modelled by the caller through `textAuto`) -/
+def handlesAuto (textAuto : Str → Bool) (c : Conflict) : Bool :=
+  match c.ctype with
+  | .text => textAuto c.path
+  | _ => false
+
 /-- `resolve(tree, paths, action="done")` on the conflicts file: the new file
-content (`paths = none`: resolve everything) -/
+content (`paths = none`: resolve everything); `action_done` is a no-op that
+every class inherits -/
 def resolveDone (tree : List (Str × Str)) (paths : Option (List Str)) (recurse : Bool)
     (file : Option Str) : Except Err (Option Str) :=
   match getConflicts file with
